@@ -43,7 +43,8 @@ structure EInv (life : Nat) (g : G) : Prop where
   replay : ∀ t r, (g.threads t).out = .replay r →
     (g.threads r).req.key = (g.threads t).req.key ∧ (g.threads t).req.key ≠ none ∧ (g.threads r).stored = true
 
-theorem einv_init (life : Nat) (reqs : Tid → Req) (t0 : Nat) : EInv life (init reqs t0) := by
+theorem einv_init (life : Nat) (reqs : Tid → Req) (t0 : Nat) (keep : Option (List String)) :
+    EInv life (init reqs t0 keep) := by
   refine ⟨?_, ?_, ?_, ?_, ?_, ?_, ?_, ?_, ?_⟩ <;> intros <;> simp_all [init, noRunOut]
 
 theorem lookup_some {g : G} {k : Key} {r : Tid} (h : lookup g k = some r) : ∃ exp, g.store k = some (r, exp) := by
@@ -285,11 +286,11 @@ theorem einv_step (life : Nat) {g g' : G} {t : Tid} (hl : LInv g) (hi : EInv lif
       · simp only [setThread_threads_ne _ _ ht, setThread_store, setThread_now] at h1 h2 h3 ⊢
         exact hi.exec t' k h1 h2 r exp h3
     · intro t' r h
-      have hrs : ∀ r, (g.threads r).stored = true → ((g.setThread t { g.threads t with pc := .atSet, ran := true, doneAt := g.now }).threads r).stored = true := by
+      have hrs : ∀ r, (g.threads r).stored = true → ((g.setThread t { g.threads t with pc := .atSet, ran := true, doneAt := g.now, ans := some (g.threads t).req.resp }).threads r).stored = true := by
         intro r hr; by_cases hrt : r = t
         · subst hrt; rw [he.2.2.1] at hr; cases hr
         · simp [setThread_threads_ne _ _ hrt, hr]
-      have hrk : ∀ r, ((g.setThread t { g.threads t with pc := .atSet, ran := true, doneAt := g.now }).threads r).req = (g.threads r).req := by
+      have hrk : ∀ r, ((g.setThread t { g.threads t with pc := .atSet, ran := true, doneAt := g.now, ans := some (g.threads t).req.resp }).threads r).req = (g.threads r).req := by
         intro r; by_cases hrt : r = t
         · subst hrt; simp
         · simp [setThread_threads_ne _ _ hrt]
@@ -357,12 +358,12 @@ theorem einv_step (life : Nat) {g g' : G} {t : Tid} (hl : LInv g) (hi : EInv lif
         · simp [hkk] at h3; exact hi.exec t' k' h1 h2 r exp h3
     · intro t' r h
       have hrs : ∀ r, (g.threads r).stored = true →
-          (({ g with store := fun k' => if k' = k then some (t, g.now + life) else g.store k' }.setThread t
+          (({ g with store := fun k' => if k' = k then some (t, g.now + life) else g.store k', vals := fun k' => if k' = k then some (recorded g.keep (g.threads t).req.resp) else g.vals k' }.setThread t
             { g.threads t with pc := .atUnlock, out := .own, stored := true }).threads r).stored = true := by
         intro r hr; by_cases hrt : r = t
         · subst hrt; simp
         · simp [setThread_threads_ne _ _ hrt, hr]
-      have hrk : ∀ r, (({ g with store := fun k' => if k' = k then some (t, g.now + life) else g.store k' }.setThread t
+      have hrk : ∀ r, (({ g with store := fun k' => if k' = k then some (t, g.now + life) else g.store k', vals := fun k' => if k' = k then some (recorded g.keep (g.threads t).req.resp) else g.vals k' }.setThread t
             { g.threads t with pc := .atUnlock, out := .own, stored := true }).threads r).req = (g.threads r).req := by
         intro r; by_cases hrt : r = t
         · subst hrt; simp
@@ -415,6 +416,9 @@ theorem einv_step (life : Nat) {g g' : G} {t : Tid} (hl : LInv g) (hi : EInv lif
     refine einv_local (t := t) hi rfl rfl (fun t' h => by simp [h]) (by simp) (by simp) (by simp)
       (by simp [early]) (by simp [he.1]) (by simp) ?_ (by simp [he.2.2.1]) (by simp [execRegion]) (by simp)
     intro k h1; simp [he.1] at h1
+  | faultUnlock hpc =>
+    exact einv_late (t := t) hi rfl rfl (fun t' h => by simp [h]) (by simp) (by simp) (by simp) (by simp) (by simp)
+      (by simp [hpc]) (by simp [early, execRegion])
   | faultSet hpc =>
     obtain ⟨s1, s2, s3, s4, s5⟩ := hi.atSet t hpc
     refine einv_local (t := t) hi rfl rfl (fun t' h => by simp [h]) (by simp) (by simp) (by simp)
